@@ -74,9 +74,19 @@ func (e *Engine) verifyFuncAspect(blk *Block, prop, aspect string) (fv *FuncVer,
 		}
 	}
 	_, fv.nopanic = blk.Flags["nopanic"]
+	if v := strings.TrimSpace(blk.Flags["nopanic"]); v != "" {
+		// `nopanic divzero,bounds`: only these kinds of safety obligations (for functions whose
+		// pointer safety depends on state the checker havocs, e.g. after a go statement)
+		fv.nopanic = false
+		fv.nopanicKinds = map[string]bool{}
+		for _, k := range strings.Fields(strings.ReplaceAll(v, ",", " ")) {
+			fv.nopanicKinds[k] = true
+		}
+	}
 	fv.aspect = aspect
 	if aspect != "" {
 		fv.nopanic = false // safety obligations belong to the default pass
+		fv.nopanicKinds = nil
 	}
 	defer func() {
 		if r := recover(); r != nil {
